@@ -656,6 +656,13 @@ Definition canon_locale_text (s : bytes) : bool :=
   | _ => false
   end.
 
+(* "<Less|Equal|Greater> <==> <equal strings>": the three answers of a comparison are consistent *)
+Definition cmp_consistent (impl : bytes) : bool :=
+  match words impl with
+  | [c; e; s0] => beqb e s0 && Bool.eqb (beqb c (bs "Equal")) (beqb e (bs "true"))
+  | _ => true
+  end.
+
 Definition spec_locale_ok (a impl : bytes) : bool :=
   match spec_locale_zone (split a) with
   | MustAccept v => beqb impl (bs "OK " ++ fmt_locale v)
@@ -716,7 +723,10 @@ Definition oracle_spec_locale (op : bytes) (args : list bytes) (impl : bytes) : 
             let same := beqb (loc_to_string x) (loc_to_string y) in
             beqb impl (fmt_cmp (loc_cmp x y) ++ sp ++ fmt_bool same ++ sp ++ fmt_bool same)
             && Bool.eqb same (match loc_cmp x y with Eq => true | _ => false end)
-          | _, _ => true end)
+          | _, _ =>
+            (* whatever the implementation accepts (lenient zone, repeated keys, an `other` extension it chooses to
+               support): == iff equal canonical strings, and Equal iff == *)
+            cmp_consistent impl end)
   else None.
 
 (* ================================================================== serde *)
